@@ -17,7 +17,9 @@ for c in $PROPS; do
   [ -f "DaeVerif/$c/Main.lean" ] && T="$T ${lc}drv"
   if ! lake build $T; then echo "setup: lake build failed for $c"; rc=1; fi
 done
-[ -f DaeVerif/Compose/Routing.lean ] && (lake build DaeVerif.Compose.Routing || rc=1)
+# cross-property compositions (braces, not a subshell: a failure must reach rc)
+[ -f DaeVerif/Compose/Routing.lean ] && { lake build DaeVerif.Compose.Routing || rc=1; }
+[ -f DaeVerif/Compose/KernelDomain.lean ] && { lake build DaeVerif.Compose.KernelDomain || rc=1; }
 cd ..
 # 2. warm the Go build cache for the packages the harnesses compile into
 (cd /repo && go build -tags dae_stub_ebpf ./... ) || rc=1
